@@ -59,6 +59,7 @@ func (q *qpsLimiter) take() bool {
 	if atomic.LoadInt32(&q.tokens) <= 0 {
 		return false
 	}
+	verifGate("qps.take.loaded")
 	return atomic.AddInt32(&q.tokens, -1) >= 0
 }
 
